@@ -175,10 +175,18 @@ class Rational(Primitive):
         if isinstance(right, Rational):
             try:
                 result = impl(self._value, right._value)
+                if isinstance(result, complex):
+                    raise ValueError("the result is not a real number")
+                return Rational(result)
             except ZeroDivisionError:
                 raise _any.InvalidOperandError("Cannot divide %s by zero" % self._value) from None
-            else:
-                return Rational(result)
+            except (OverflowError, ValueError) as ex:
+                # Exponentiation with a non-integer exponent is evaluated in floating point, where it may overflow
+                # or leave the real domain (e.g., a root of a negative number).
+                raise _any.InvalidOperandError(
+                    "The result of the operation on %s and %s is not a finite rational: %s"
+                    % (self._value, right._value, ex)
+                ) from None
         else:
             raise _any.UndefinedOperatorError
 
